@@ -1,52 +1,25 @@
 (* C12 -- the arccos comparison of cap_distance is the algebraic cap test.
-   Over Coq's axiomatic reals (Reals): cap_distance computes
-       degrees (acos (1 - |cm|) - acos d),   negated when cm < 0,     d = x . p
-   and is_in_cap tests  >= 0.  For -1 <= d <= 1 and 0 <= |cm| <= 2 this is
-       cm >= 0 :  1 - d <= cm           cm < 0 :  1 - d >= |cm|
-   (monotonicity of acos).  The two caps (x, c) and (x, -c) are therefore complementary
-   except on the common boundary 1 - d = c, which the code assigns to both. *)
+   The formula is the one EXTRACTED from the source (Generated/MangleR.v):
+       gen_dotprod d        = clip d                          (np.clip(np.dot(xyz, x), -1.0, 1.0))
+       gen_cdist cm d       = degrees (acos (1 - |cm|) - acos (gen_dotprod d))
+       gen_cap_distance cm d = gen_cdist cm d * (-1) if cm < 0 else gen_cdist cm d
+       gen_is_in_cap cm d   = gen_cap_distance cm d >= 0
+   For -1 <= d <= 1 and |cm| <= 2 the test is   cm >= 0 : 1 - d <= cm     cm < 0 : 1 - d >= |cm|
+   (monotonicity of acos).  The caps (x, c) and (x, -c) are complementary except on the common boundary
+   1 - d = c, which the code assigns to both. *)
 From Coq Require Import Reals Lra.
+From PV Require Import C12.RBase Generated.MangleR.
 Open Scope R_scope.
-
-Lemma acos_le_iff a b : -1 <= a <= 1 -> -1 <= b <= 1 -> (acos a <= acos b <-> b <= a).
-Proof.
-  intros Ha Hb.
-  pose proof (acos_bound a) as Ba. pose proof (acos_bound b) as Bb.
-  split; intro H.
-  - rewrite <- (cos_acos a Ha), <- (cos_acos b Hb).
-    apply cos_decr_1; lra.
-  - apply cos_decr_0; try lra.
-    rewrite (cos_acos a Ha), (cos_acos b Hb). exact H.
-Qed.
-
-(* degrees() multiplies by the positive constant 180/PI: it does not change the sign test *)
-Definition degrees (r : R) : R := r * (180 / PI).
-
-Lemma degrees_nonneg r : 0 <= degrees r <-> 0 <= r.
-Proof.
-  unfold degrees. assert (0 < 180 / PI) as K.
-  { apply Rdiv_lt_0_compat; [lra | apply PI_RGT_0]. }
-  split; intro H.
-  - apply (Rmult_le_reg_r (180 / PI)); [exact K|]. lra.
-  - apply Rmult_le_pos; lra.
-Qed.
-
-(* the code's formula *)
-Definition cap_distance_R (cm d : R) : R :=
-  let cdist := degrees (acos (1 - Rabs cm) - acos d) in
-  if Rlt_dec cm 0 then cdist * -1 else cdist.
 
 Lemma arccos_test_equiv d c : -1 <= d <= 1 -> 0 <= c <= 2 ->
   (acos (1 - c) - acos d >= 0 <-> 1 - d <= c).
 Proof.
   intros Hd Hc.
   assert (-1 <= 1 - c <= 1) as H1 by lra.
-  pose proof (acos_le_iff (1 - c) d H1 Hd) as E.
+  pose proof (acos_le_iff d (1 - c) Hd H1) as E'.
   split; intro H.
-  - assert (acos d <= acos (1 - c)) as H' by lra.
-    pose proof (acos_le_iff d (1 - c) Hd H1) as E'. apply E' in H'. lra.
-  - pose proof (acos_le_iff d (1 - c) Hd H1) as E'.
-    assert (acos d <= acos (1 - c)) by (apply E'; lra). lra.
+  - assert (acos d <= acos (1 - c)) as H' by lra. apply E' in H'. lra.
+  - assert (acos d <= acos (1 - c)) by (apply E'; lra). lra.
 Qed.
 
 Lemma arccos_test_equiv_neg d c : -1 <= d <= 1 -> 0 <= c <= 2 ->
@@ -60,57 +33,52 @@ Proof.
   - assert (acos (1 - c) <= acos d) by (apply E; lra). lra.
 Qed.
 
-Theorem cap_distance_sign cm d : -1 <= d <= 1 -> -2 <= cm <= 2 ->
-  (cap_distance_R cm d >= 0 <->
-   if Rlt_dec cm 0 then - cm <= 1 - d else 1 - d <= cm).
+(* the generated formula, for any dot product d, in terms of the clipped value *)
+Lemma gen_is_in_cap_clip cm d : -2 <= cm <= 2 ->
+  (gen_is_in_cap cm d <-> if Rlt_dec cm 0 then - cm <= 1 - clip d else 1 - clip d <= cm).
 Proof.
-  intros Hd Hc. unfold cap_distance_R. cbv zeta.
+  intros Hc. unfold gen_is_in_cap, gen_cap_distance, gen_cdist, gen_dotprod. fold (clip d).
+  pose proof (clip_bounds d) as Hd.
   destruct (Rlt_dec cm 0) as [Hneg|Hpos].
   - rewrite (Rabs_left cm Hneg).
-    pose proof (arccos_test_equiv_neg d (- cm) Hd ltac:(lra)) as E.
-    pose proof (degrees_nonneg (- (acos (1 - - cm) - acos d))) as D.
+    pose proof (arccos_test_equiv_neg (clip d) (- cm) Hd ltac:(lra)) as E.
+    pose proof (degrees_nonneg (- (acos (1 - - cm) - acos (clip d)))) as D.
     unfold degrees in *. split; intro H.
     + apply E. apply Rle_ge. apply D. lra.
     + apply E in H. apply Rge_le in H. apply D in H. lra.
   - rewrite (Rabs_right cm) by lra.
-    pose proof (arccos_test_equiv d cm Hd ltac:(lra)) as E.
-    pose proof (degrees_nonneg (acos (1 - cm) - acos d)) as D.
+    pose proof (arccos_test_equiv (clip d) cm Hd ltac:(lra)) as E.
+    pose proof (degrees_nonneg (acos (1 - cm) - acos (clip d))) as D.
     unfold degrees in *. split; intro H.
     + apply E. apply Rle_ge. apply D. lra.
     + apply E in H. apply Rge_le in H. apply D in H. lra.
 Qed.
 
-(* with the dot product clipped to [-1, 1] (the proposed repair of cap_distance) the test is the
-   algebraic one on the clipped value; for -1 <= d this is the test on d itself even if rounding
-   pushed d above 1 *)
-Definition clip (d : R) : R := Rmax (-1) (Rmin 1 d).
-
-Lemma clip_bounds d : -1 <= clip d <= 1.
+(* for a dot product inside [-1, 1] the test of the code is the algebraic test of the property *)
+Theorem cap_distance_sign cm d : -1 <= d <= 1 -> -2 <= cm <= 2 ->
+  (gen_is_in_cap cm d <-> if Rlt_dec cm 0 then - cm <= 1 - d else 1 - d <= cm).
 Proof.
-  unfold clip. split; [apply Rmax_l|].
-  apply Rmax_lub; [lra | apply Rmin_l].
+  intros Hd Hc. rewrite (gen_is_in_cap_clip cm d Hc). rewrite (clip_id d Hd). reflexivity.
 Qed.
 
-Lemma clip_id d : -1 <= d <= 1 -> clip d = d.
-Proof. intros H. unfold clip. rewrite Rmin_right by lra. rewrite Rmax_right by lra. reflexivity. Qed.
-
-Theorem cap_distance_clipped_sign cm d : -1 <= d -> -2 <= cm <= 2 ->
-  (cap_distance_R cm (clip d) >= 0 <->
-   if Rlt_dec cm 0 then - cm <= 1 - clip d else 1 - d <= cm).
+(* a dot product that rounding pushed above 1 (a point at the cap's own centre) still gives the right
+   answer for cm >= 0: this is what the clip is for *)
+Theorem cap_distance_clipped_sign cm d : -1 <= d -> 0 <= cm <= 2 ->
+  (gen_is_in_cap cm d <-> 1 - d <= cm).
 Proof.
-  intros Hd Hc.
-  pose proof (cap_distance_sign cm (clip d) (clip_bounds d) Hc) as E.
-  destruct (Rlt_dec cm 0) as [Hneg|Hpos]; [exact E|].
+  intros Hd Hc. rewrite (gen_is_in_cap_clip cm d ltac:(lra)).
+  destruct (Rlt_dec cm 0) as [N|_]; [lra|].
   destruct (Rle_dec d 1) as [Hle|Hgt].
-  - rewrite clip_id in * by lra. exact E.
-  - assert (clip d = 1) as C1.
-    { unfold clip. rewrite Rmin_left by lra. rewrite Rmax_right by lra. reflexivity. }
-    rewrite C1 in *. split; intro H; [lra|]. apply E. lra.
+  - rewrite clip_id by lra. reflexivity.
+  - rewrite clip_above by lra. split; intro H; lra.
 Qed.
+
+Theorem centre_always_inside cm d : 1 <= d -> 0 <= cm <= 2 -> gen_is_in_cap cm d.
+Proof. intros Hd Hc. apply cap_distance_clipped_sign; lra. Qed.
 
 (* complement, off the boundary *)
 Theorem neg_cap_is_complement c d : -1 <= d <= 1 -> 0 < c <= 2 -> 1 - d <> c ->
-  (cap_distance_R (- c) d >= 0 <-> ~ cap_distance_R c d >= 0).
+  (gen_is_in_cap (- c) d <-> ~ gen_is_in_cap c d).
 Proof.
   intros Hd Hc Hb.
   rewrite (cap_distance_sign (- c) d Hd ltac:(lra)).
@@ -122,7 +90,7 @@ Qed.
 
 (* on the boundary the code reports "inside" for both signs *)
 Theorem boundary_in_both c d : -1 <= d <= 1 -> 0 < c <= 2 -> 1 - d = c ->
-  cap_distance_R (- c) d >= 0 /\ cap_distance_R c d >= 0.
+  gen_is_in_cap (- c) d /\ gen_is_in_cap c d.
 Proof.
   intros Hd Hc Hb. split.
   - apply (cap_distance_sign (- c) d Hd ltac:(lra)). destruct (Rlt_dec (- c) 0); lra.
